@@ -55,7 +55,7 @@ def sortKeys (l : List String) : List String := sortBy (· < ·) l
 
 def showBits (v : Int) : String :=
   match F64.toBits v with
-  | some b => String.ofList (Nat.toDigits 16 b)
+  | some b => let d := Nat.toDigits 16 b; String.ofList (List.replicate (16 - d.length) '0' ++ d)
   | none => s!"notdouble({v})"
 
 def showMap (m : PM) : String :=
